@@ -4,6 +4,8 @@ import (
 	"fmt"
 	"math/rand"
 	"path/filepath"
+	"sync"
+	"sync/atomic"
 
 	"github.com/glebziz/fs_db"
 	"github.com/glebziz/fs_db/pkg/verif"
@@ -405,7 +407,34 @@ func c18Db(tier string, seed int64, idx int, scratch string) rt.CaseResult {
 		c.Violate("files-before-collection", fmt.Sprintf("%d content files on disk before any collector pass, %d versions were written", n0, total), replay)
 		return c
 	}
-	if err := env.Collect(); err != nil {
+	// in every fourth case the pass is six passes at once (the scheduler sends one per period
+	// without waiting for the previous one, several workers may run them side by side)
+	if idx%4 == 2 {
+		replay["collector_passes_at_once"] = 6
+		var wg sync.WaitGroup
+		var ready atomic.Int32
+		errs := make([]error, 6)
+		for g := range errs {
+			wg.Add(1)
+			go func(g int) {
+				defer wg.Done()
+				ready.Add(1)
+				for ready.Load() < 6 {
+				}
+				errs[g] = env.Collect()
+			}(g)
+		}
+		wg.Wait()
+		for _, e := range errs {
+			if e != nil {
+				err = e
+			}
+		}
+		c.Count("concurrent_pass_groups", 1)
+	} else {
+		err = env.Collect()
+	}
+	if err != nil {
 		c.Violate("collector-error", err.Error(), replay)
 		return c
 	}
